@@ -6800,6 +6800,19 @@ impl RelationalEngine {
 
         let row_id = slab_row_id.as_u64() + 1;
 
+        // The new row belongs to this transaction until it ends: take its row lock so that
+        // no other transaction can update or delete the uncommitted row (row ids are never
+        // reused, so the lock is always free).
+        self.tx_manager
+            .lock_manager()
+            .try_lock(tx_id, &[(table.to_string(), row_id)])
+            .map_err(|info| RelationalError::LockConflict {
+                tx_id,
+                blocking_tx: info.blocking_tx,
+                table: info.table,
+                row_id: info.row_id,
+            })?;
+
         // Update row counter
         self.row_counters
             .entry(table.to_string())
